@@ -1,1 +1,471 @@
+/-
+  Property C11 — ABI decoding of arbitrary bytes is total, stable and bounded by the data given.
+  Model: FFS.Model.Abi.decode / decodeList / decodeParams (pkg/abi/abidecode.go) for every type tree, every byte
+  string and every head position.
+  * `decode_total`     : never a panic (every slice is preceded by its bounds check; no fuel anywhere: the loops are
+                         structural in the type and in the count read from the data).
+  * `decode_heads`     : the head bytes a decode reports as read are a multiple of 32 and, when non-zero, lie inside
+                         the block — so a loop over n children that each read something needs 32·n bytes of data.
+  * `darr_bounded`     : a dynamic array that decodes has at most max(cap, |block|/32) children: its size is bounded
+                         by the data supplied (or by the fixed cap for elements with an empty encoding), never by the
+                         magnitude of the count word.
+  Serialisation of a returned tree and decode∘encode∘decode stability are checked by the correspondence run
+  (serialisers and the encoder are modelled, but the statements are not proved here).
+-/
 import FFS.Model.AbiIO
+namespace FFS.Props.C11
+open FFS FFS.Model.Abi FFS.Gen.AbiCodecFacts
+
+/-- the regenerated facts the decoder model rests on -/
+theorem facts : zeroSizeCountBounded = true ∧ dynArrayNoUpfrontAlloc = true ∧ lengthBoundsChecked = true ∧
+    maxEmptyElementCount = 65536 := by decide
+
+theorem decodeLength_ne_panic (block : Bytes) (off : Nat) : decodeLength block off ≠ .panic := by
+  unfold decodeLength
+  split
+  · simp
+  · rename_i h
+    have hs : slice? block off (off + 32) = .ok ((block.drop off).take (off + 32 - off)) := by
+      unfold slice?
+      have : off ≤ off + 32 ∧ off + 32 ≤ block.length := ⟨by omega, by omega⟩
+      simp [this]
+    rw [hs]
+    simp only []
+    split <;> simp
+
+theorem decodeElem_ne_panic (info : ElemInfo) (m : Nat) (block : Bytes) (hs hp : Nat) :
+    decodeElem info m block hs hp ≠ .panic := by
+  unfold decodeElem
+  split
+  · split
+    · simp
+    · rename_i h
+      have : slice? block hp (hp + 32) = .ok ((block.drop hp).take (hp + 32 - hp)) := by
+        unfold slice?
+        have : hp ≤ hp + 32 ∧ hp + 32 ≤ block.length := ⟨by omega, by omega⟩
+        simp [this]
+      rw [this]; simp [Outcome.bind]
+  · split
+    · simp
+    · rename_i h
+      have : slice? block (hp + (32 - m / 8)) (hp + 32) =
+          .ok ((block.drop (hp + (32 - m / 8))).take (hp + 32 - (hp + (32 - m / 8)))) := by
+        unfold slice?
+        have : hp + (32 - m / 8) ≤ hp + 32 ∧ hp + 32 ≤ block.length := ⟨by omega, by omega⟩
+        simp [this]
+      rw [this]; simp [Outcome.bind]
+  · -- bytes / string
+    simp only []
+    split
+    · have h1 := decodeLength_ne_panic block hp
+      split
+      · rename_i off _
+        have h2 := decodeLength_ne_panic block (hs + off)
+        split
+        · split <;> simp
+        · simp
+        · rename_i hp2; exact absurd hp2 h2
+      · simp
+      · rename_i hp1; exact absurd hp1 h1
+    · split <;> simp
+  · simp only []
+    split
+    · have h1 := decodeLength_ne_panic block hp
+      split
+      · rename_i off _
+        have h2 := decodeLength_ne_panic block (hs + off)
+        split
+        · split <;> simp
+        · simp
+        · rename_i hp2; exact absurd hp2 h2
+      · simp
+      · rename_i hp1; exact absurd hp1 h1
+    · split <;> simp
+  · simp
+
+theorem decodeRepeat_ne_panic (dec : Nat → Nat → Outcome (Nat × CV)) (hd : ∀ a b, dec a b ≠ .panic) :
+    ∀ (n hs hp : Nat), decodeRepeat dec n hs hp ≠ .panic := by
+  intro n
+  induction n with
+  | zero => intro hs hp; simp [decodeRepeat]
+  | succ n ih =>
+    intro hs hp
+    unfold decodeRepeat
+    split
+    · rename_i r c _
+      have := ih hs (hp + r)
+      split
+      · simp
+      · simp
+      · rename_i hp'; exact absurd hp' this
+    · simp
+    · rename_i hp'; exact absurd hp' (hd hs hp)
+
+theorem decodeRepeatDyn_ne_panic (dec : Nat → Nat → Outcome (Nat × CV)) (over : Bool) (hd : ∀ a b, dec a b ≠ .panic) :
+    ∀ (n hs hp : Nat), decodeRepeatDyn dec over n hs hp ≠ .panic := by
+  intro n
+  induction n with
+  | zero => intro hs hp; simp [decodeRepeatDyn]
+  | succ n ih =>
+    intro hs hp
+    unfold decodeRepeatDyn
+    split
+    · rename_i r c _
+      have := ih hs (hp + r)
+      split
+      · simp
+      · split
+        · simp
+        · simp
+        · rename_i hp'; exact absurd hp' this
+    · simp
+    · rename_i hp'; exact absurd hp' (hd hs hp)
+
+mutual
+  /-- **Totality.** Decoding any bytes as any type at any position never panics. -/
+  theorem decode_total : ∀ (t : Ty) (block : Bytes) (hs hp : Nat), decode t block hs hp ≠ .panic
+    | .elem info suffix m n, block, hs, hp => by
+      unfold decode
+      have := decodeElem_ne_panic info m block hs hp
+      split
+      · simp
+      · simp
+      · rename_i h; exact absurd h this
+    | .farr t k, block, hs, hp => by
+      unfold decode
+      have hrec : ∀ a b, decode t block a b ≠ .panic := fun a b => decode_total t block a b
+      split
+      · have h1 := decodeLength_ne_panic block hp
+        split
+        · rename_i off _
+          have := decodeRepeat_ne_panic (decode t block) hrec k (hs + off) (hs + off)
+          split
+          · simp
+          · simp
+          · rename_i h; exact absurd h this
+        · simp
+        · rename_i h; exact absurd h h1
+      · have := decodeRepeat_ne_panic (decode t block) hrec k hs hp
+        split
+        · simp
+        · simp
+        · rename_i h; exact absurd h this
+    | .darr t, block, hs, hp => by
+      unfold decode
+      have hrec : ∀ a b, decode t block a b ≠ .panic := fun a b => decode_total t block a b
+      have h1 := decodeLength_ne_panic block hp
+      split
+      · rename_i off _
+        have h2 := decodeLength_ne_panic block (hs + off)
+        split
+        · rename_i count _
+          have := decodeRepeatDyn_ne_panic (decode t block) (decide (count > maxEmptyElementCount)) hrec count (hs + off + 32) (hs + off + 32)
+          split
+          · simp
+          · simp
+          · rename_i h; exact absurd h this
+        · simp
+        · rename_i h; exact absurd h h2
+      · simp
+      · rename_i h; exact absurd h h1
+    | .tuple ns ts, block, hs, hp => by
+      unfold decode
+      split
+      · have h1 := decodeLength_ne_panic block hp
+        split
+        · rename_i off _
+          have := decodeList_total ts block (hs + off) (hs + off)
+          split
+          · simp
+          · simp
+          · rename_i h; exact absurd h this
+        · simp
+        · rename_i h; exact absurd h h1
+      · have := decodeList_total ts block hs hp
+        split
+        · simp
+        · simp
+        · rename_i h; exact absurd h this
+  theorem decodeList_total : ∀ (ts : List Ty) (block : Bytes) (hs hp : Nat), decodeList ts block hs hp ≠ .panic
+    | [], block, hs, hp => by simp [decodeList]
+    | t :: ts, block, hs, hp => by
+      unfold decodeList
+      have h1 := decode_total t block hs hp
+      split
+      · rename_i r c _
+        have := decodeList_total ts block hs (hp + r)
+        split
+        · simp
+        · simp
+        · rename_i h; exact absurd h this
+      · simp
+      · rename_i h; exact absurd h h1
+end
+
+/-- `ParameterArray.DecodeABIData(b, offset)` never panics -/
+theorem decodeParams_total (ts : List Ty) (block : Bytes) (offset : Nat) : decodeParams ts block offset ≠ .panic := by
+  unfold decodeParams
+  have := decodeList_total ts block offset offset
+  split
+  · simp
+  · simp
+  · rename_i h; exact absurd h this
+
+/-! ### head bytes and the bound on dynamic arrays -/
+
+/-- what a decode reports as read: a multiple of 32 and, when non-zero, starting inside the block -/
+def HeadOK (block : Bytes) (hp r : Nat) : Prop := r % 32 = 0 ∧ (r = 0 ∨ hp < block.length)
+
+theorem decodeLength_ok_bound (block : Bytes) (off n : Nat) (h : decodeLength block off = .ok n) :
+    off + 32 ≤ block.length := by
+  unfold decodeLength at h
+  split at h
+  · cases h
+  · omega
+
+theorem decodeElem_ok_bound (info : ElemInfo) (m : Nat) (hm : codecOf info.dec = .bytes ∨ codecOf info.dec = .string → m = 0 ∨ 0 < m)
+    (block : Bytes) (hs hp : Nat) (v : CV) (h : decodeElem info m block hs hp = .ok v) : hp < block.length := by
+  unfold decodeElem at h
+  split at h
+  · split at h
+    · cases h
+    · omega
+  · split at h
+    · cases h
+    · omega
+  · simp only [] at h
+    split at h
+    · split at h
+      · rename_i off hl
+        have := decodeLength_ok_bound block hp off hl
+        omega
+      · cases h
+      · cases h
+    · rename_i hm0
+      split at h
+      · cases h
+      · omega
+  · simp only [] at h
+    split at h
+    · split at h
+      · rename_i off hl
+        have := decodeLength_ok_bound block hp off hl
+        omega
+      · cases h
+      · cases h
+    · rename_i hm0
+      split at h
+      · cases h
+      · omega
+  · cases h
+
+theorem decodeRepeat_heads (block : Bytes) (dec : Nat → Nat → Outcome (Nat × CV))
+    (hd : ∀ a b r v, dec a b = .ok (r, v) → HeadOK block b r) :
+    ∀ (n hs hp r : Nat) (cs : List CV), decodeRepeat dec n hs hp = .ok (r, cs) → HeadOK block hp r := by
+  intro n
+  induction n with
+  | zero => intro hs hp r cs h; simp [decodeRepeat] at h; obtain ⟨rfl, _⟩ := h; exact ⟨rfl, Or.inl rfl⟩
+  | succ n ih =>
+    intro hs hp r cs h
+    unfold decodeRepeat at h
+    split at h
+    · rename_i r0 c hdec
+      split at h
+      · rename_i rs cs' hrest
+        injection h with h; injection h with h1 h2
+        subst h1
+        have a := hd hs hp r0 c hdec
+        have b := ih hs (hp + r0) rs cs' hrest
+        refine ⟨by have := a.1; have := b.1; omega, ?_⟩
+        rcases a.2 with a0 | a0
+        · rcases b.2 with b0 | b0
+          · left; omega
+          · right; omega
+        · right; exact a0
+      · cases h
+      · cases h
+    · cases h
+    · cases h
+
+theorem decodeRepeatDyn_spec (block : Bytes) (dec : Nat → Nat → Outcome (Nat × CV)) (over : Bool)
+    (hd : ∀ a b r v, dec a b = .ok (r, v) → HeadOK block b r) :
+    ∀ (n hs hp r : Nat) (cs : List CV), decodeRepeatDyn dec over n hs hp = .ok (r, cs) →
+      cs.length = n ∧ (over = true → n = 0 ∨ hp + 32 * (n - 1) < block.length) := by
+  intro n
+  induction n with
+  | zero => intro hs hp r cs h; simp [decodeRepeatDyn] at h; obtain ⟨_, rfl⟩ := h; exact ⟨rfl, fun _ => Or.inl rfl⟩
+  | succ n ih =>
+    intro hs hp r cs h
+    unfold decodeRepeatDyn at h
+    split at h
+    · rename_i r0 c hdec
+      split at h
+      · cases h
+      · rename_i hnz
+        split at h
+        · rename_i rs cs' hrest
+          injection h with h; injection h with h1 h2
+          subst h2
+          have a := hd hs hp r0 c hdec
+          have b := ih hs (hp + r0) rs cs' hrest
+          refine ⟨by simp [b.1], ?_⟩
+          intro hov
+          right
+          have hr0 : r0 ≠ 0 := by
+            intro e
+            apply hnz
+            simp [facts.1, hov, e]
+          have hr32 : 32 ≤ r0 := by have := a.1; omega
+          have hlt : hp < block.length := by
+            rcases a.2 with a0 | a0
+            · exact absurd a0 hr0
+            · exact a0
+          rcases b.2 hov with b0 | b0
+          · subst b0; simpa using hlt
+          · simp only [Nat.add_sub_cancel]
+            omega
+        · cases h
+        · cases h
+    · cases h
+    · cases h
+
+/-- widths in the type table: byte-like elementary types have m = 0 (dynamic) or m ≥ 1 -/
+theorem width_trivial (m : Nat) : m = 0 ∨ 0 < m := by omega
+
+mutual
+  /-- **Head bytes.** Whatever a successful decode reports as read is a multiple of 32 and, if not zero, starts inside
+      the block. -/
+  theorem decode_heads : ∀ (t : Ty) (block : Bytes) (hs hp r : Nat) (v : CV), decode t block hs hp = .ok (r, v) → HeadOK block hp r
+    | .elem info suffix m n, block, hs, hp, r, v => by
+      intro h
+      unfold decode at h
+      split at h
+      · rename_i v' hv
+        injection h with h; injection h with h1 _
+        subst h1
+        exact ⟨rfl, Or.inr (decodeElem_ok_bound info m (fun _ => width_trivial m) block hs hp v' hv)⟩
+      · cases h
+      · cases h
+    | .farr t k, block, hs, hp, r, v => by
+      intro h
+      unfold decode at h
+      split at h
+      · split at h
+        · rename_i off hl
+          split at h
+          · injection h with h; injection h with h1 _
+            subst h1
+            have := decodeLength_ok_bound block hp off hl
+            exact ⟨rfl, Or.inr (by omega)⟩
+          · cases h
+          · cases h
+        · cases h
+        · cases h
+      · split at h
+        · rename_i r' cs hrep
+          injection h with h; injection h with h1 _
+          subst h1
+          exact decodeRepeat_heads block (decode t block) (fun a b r v hh => decode_heads t block a b r v hh) k hs hp r' cs hrep
+        · cases h
+        · cases h
+    | .darr t, block, hs, hp, r, v => by
+      intro h
+      unfold decode at h
+      split at h
+      · rename_i off hl
+        split at h
+        · split at h
+          · injection h with h; injection h with h1 _
+            subst h1
+            have := decodeLength_ok_bound block hp off hl
+            exact ⟨rfl, Or.inr (by omega)⟩
+          · cases h
+          · cases h
+        · cases h
+        · cases h
+      · cases h
+      · cases h
+    | .tuple ns ts, block, hs, hp, r, v => by
+      intro h
+      unfold decode at h
+      split at h
+      · split at h
+        · rename_i off hl
+          split at h
+          · injection h with h; injection h with h1 _
+            subst h1
+            have := decodeLength_ok_bound block hp off hl
+            exact ⟨rfl, Or.inr (by omega)⟩
+          · cases h
+          · cases h
+        · cases h
+        · cases h
+      · split at h
+        · rename_i r' cs hl
+          injection h with h; injection h with h1 _
+          subst h1
+          exact decodeList_heads ts block hs hp r' cs hl
+        · cases h
+        · cases h
+  theorem decodeList_heads : ∀ (ts : List Ty) (block : Bytes) (hs hp r : Nat) (cs : List CV),
+      decodeList ts block hs hp = .ok (r, cs) → HeadOK block hp r
+    | [], block, hs, hp, r, cs => by
+      intro h; simp [decodeList] at h; obtain ⟨rfl, _⟩ := h; exact ⟨rfl, Or.inl rfl⟩
+    | t :: ts, block, hs, hp, r, cs => by
+      intro h
+      unfold decodeList at h
+      split at h
+      · rename_i r0 c hdec
+        split at h
+        · rename_i rs cs' hrest
+          injection h with h; injection h with h1 _
+          subst h1
+          have a := decode_heads t block hs hp r0 c hdec
+          have b := decodeList_heads ts block hs (hp + r0) rs cs' hrest
+          refine ⟨by have := a.1; have := b.1; omega, ?_⟩
+          rcases a.2 with a0 | a0
+          · rcases b.2 with b0 | b0
+            · left; omega
+            · right; omega
+          · right; exact a0
+        · cases h
+        · cases h
+      · cases h
+      · cases h
+end
+
+/-- **Bounded by the data given.** A dynamic array that decodes has exactly as many children as its count word says,
+    and that count is at most the fixed cap, or else the children's heads — 32 bytes apart at least — all start
+    inside the block: the size of the tree is bounded by the amount of data (and the cap), never by the magnitude of
+    a count word alone. -/
+theorem darr_bounded (t : Ty) (block : Bytes) (hs hp r : Nat) (cs : List CV)
+    (h : decode (.darr t) block hs hp = .ok (r, .kids cs)) :
+    cs.length ≤ maxEmptyElementCount ∨ 32 * (cs.length - 1) < block.length := by
+  unfold decode at h
+  split at h
+  · rename_i off _
+    split at h
+    · rename_i count _
+      split at h
+      · rename_i r' cs' hrep
+        injection h with h; injection h with _ h2
+        injection h2 with h2
+        subst h2
+        have := decodeRepeatDyn_spec block (decode t block) (decide (count > maxEmptyElementCount))
+          (fun a b r v hh => decode_heads t block a b r v hh) count (hs + off + 32) (hs + off + 32) r' cs' hrep
+        by_cases hc : count > maxEmptyElementCount
+        · right
+          have h2 := this.2 (by simpa using hc)
+          rw [this.1]
+          rcases h2 with h2 | h2
+          · subst h2; omega
+          · omega
+        · left; rw [this.1]; omega
+      · cases h
+      · cases h
+    · cases h
+    · cases h
+  · cases h
+  · cases h
+
+end FFS.Props.C11
